@@ -8,6 +8,8 @@ import (
 	"verif/sim"
 
 	"github.com/LemoFoundationLtd/lemochain-core/chain/types"
+	"github.com/LemoFoundationLtd/lemochain-core/common"
+	"github.com/LemoFoundationLtd/lemochain-core/common/crypto"
 	"pgregory.net/rapid"
 )
 
@@ -20,9 +22,10 @@ func join(h []string) string {
 }
 
 // TestC07Chain — units C and D on generated chain histories.
-//   C (miner discard): assembling a block from the candidate list and from only the packaged transactions must leave the
-//     miner's account manager in the same state (all addresses, all logged keys, raw fields), not only give the same hash.
-//   D (redo): replaying a block's published change logs onto the parent state yields the state of the executed block.
+//
+//	C (miner discard): assembling a block from the candidate list and from only the packaged transactions must leave the
+//	  miner's account manager in the same state (all addresses, all logged keys, raw fields), not only give the same hash.
+//	D (redo): replaying a block's published change logs onto the parent state yields the state of the executed block.
 func TestC07Chain(t *testing.T) {
 	rapid.Check(t, func(rt *rapid.T) {
 		w := sim.DefaultWeights
@@ -111,6 +114,10 @@ func TestC07Chain(t *testing.T) {
 					sim.KnownHit("chain", "C07-redo-valueless-suicide", fmt.Sprintf("block %d", b.Height()))
 					diff = ""
 				}
+				if diff != "" && knownRecreateRedo(diff, s, b) {
+					sim.KnownHit("chain", "undo-code-after-recreate", fmt.Sprintf("block %d", b.Height()))
+					diff = ""
+				}
 				if diff != "" {
 					rt.Fatalf("redo of block %d differs from executing it (- executed, + redone):\n%s\nlogs: %v\nhistory:\n%s", b.Height(), diff, sim.RenderLogs(b.ChangeLogs, true), join(s.History))
 				}
@@ -160,6 +167,38 @@ func knownValuelessSuicide(diff string, destroyed map[string]bool, b *types.Bloc
 		}
 		addr := parts[0]
 		if !destroyed[addr] || hasSuicideLog[addr] || !strings.HasPrefix(parts[1], "+ storage[") {
+			return false
+		}
+	}
+	return true
+}
+
+// knownRecreateRedo is the chain-level matcher of the known finding undo-code-after-recreate (see known_findings.json): the
+// executed state lost the code of a contract that contract code created (twice) during this block, the published logs still
+// carry its code.
+func knownRecreateRedo(diff string, s *sim.Scenario, b *types.Block) bool {
+	internal := map[string]bool{}
+	creators := append([]common.Address{}, s.Gen.Contracts...)
+	for _, tx := range b.Txs {
+		if tx.Type() == 1 {
+			creators = append(creators, sim.ContractAddr(tx))
+		}
+	}
+	for _, tx := range b.Txs {
+		for _, c := range creators {
+			internal[crypto.CreateContractAddress(c, tx.Hash()).Hex()] = true
+		}
+	}
+	for _, line := range strings.Split(diff, "\n") {
+		parts := strings.SplitN(line, "  ", 2)
+		if len(parts) != 2 || !internal[parts[0]] {
+			return false
+		}
+		f := parts[1]
+		switch {
+		case f == "- codehash=none" || strings.HasPrefix(f, "- code= "):
+		case strings.HasPrefix(f, "+ codehash=") || strings.HasPrefix(f, "+ code="):
+		default:
 			return false
 		}
 	}
